@@ -274,6 +274,28 @@ def spec_packetatt_rt(r):
     if d is None or d["r"] != "ok" or d["v"] != want:
         return "packet attestation round trip: %s came back as %s" % (r["in"], d)
 
+def _py_abi_dyn_tuple(fields):
+    """Solidity ABI encoding of one tuple argument whose fields are all string/bytes (independent reference)"""
+    def w(n): return n.to_bytes(32, "big")
+    tails = [w(len(f)) + f + bytes((-len(f)) % 32) for f in fields]
+    head = b""; off = 32 * len(fields)
+    for t in tails:
+        head += w(off); off += len(t)
+    return w(32) + head + b"".join(tails)
+
+def spec_gmp_dec(what, fields_of):
+    def f(r):
+        o = r["out"]
+        p = _panics(o)
+        if p:
+            return "%s decoding panicked in %s on bytes %s" % (what, p, r["in"])
+        u = o["unmarshal"]
+        if u["r"] == "ok" and _py_abi_dyn_tuple(fields_of(u["v"])).hex() != r["in"]:
+            return "%s: the unmarshaller (which re-marshals and compares) accepted bytes that are not the encoding of the value it returned: %s -> %s" % (what, r["in"], u["v"])
+        if u["r"] == "ok" and (o["dec"]["r"] != "ok" or o["dec"]["v"] != u["v"]):
+            return "%s: unmarshal and decode disagree on %s" % (what, r["in"])
+    return f
+
 def _k35(enc, spec):
     return dict(props=["C35"], enc=(lambda f: (lambda rec: "K35 (%s)" % f(rec)))(enc), spec=spec, exact=True)
 
@@ -283,9 +305,9 @@ KINDS.update({
     "proto_ftpd_rt": _k35(enc_proto_ftpd_rt, spec_proto_ftpd_rt),
     "proto_ftpd_dec": _k35(enc_proto_ftpd_dec, spec_proto_ftpd_dec),
     "abi_gmp_rt": _k35(enc_abi_gmp_rt, spec_abi_gmp_rt),
-    "abi_gmp_dec": _k35(enc_abi_gmp_dec, spec_dec_nopanic("GMP ABI")),
+    "abi_gmp_dec": _k35(enc_abi_gmp_dec, spec_gmp_dec("GMP packet data ABI", lambda v: [_s(x) for x in v])),
     "abi_gmpack_rt": _k35(enc_abi_gmpack_rt, spec_abi_gmpack_rt),
-    "abi_gmpack_dec": _k35(enc_abi_gmpack_dec, spec_dec_nopanic("GMP acknowledgement ABI")),
+    "abi_gmpack_dec": _k35(enc_abi_gmpack_dec, spec_gmp_dec("GMP acknowledgement ABI", lambda v: [_s(v)])),
     "abi_stateatt_rt": _k35(enc_stateatt_rt, spec_stateatt_rt),
     "abi_stateatt_dec": _k35(enc_stateatt_dec, spec_dec_nopanic("state attestation ABI")),
     "abi_packetatt_rt": _k35(enc_packetatt_rt, spec_packetatt_rt),
